@@ -74,9 +74,9 @@ class BayesianART(BaseART):
 
         """
         if not hasattr(self, "dim_"):
+            assert self.params["cov_init"].shape[0] == X.shape[1]
+            assert self.params["cov_init"].shape[1] == X.shape[1]
             self.dim_ = X.shape[1]
-            assert self.params["cov_init"].shape[0] == self.dim_
-            assert self.params["cov_init"].shape[1] == self.dim_
         else:
             assert X.shape[1] == self.dim_
 
